@@ -83,6 +83,11 @@ def kind_of_def(body, d, proj, env, depth, seen):
         # std helpers
         name = f["name"]
         ks0 = callee_keys(f)
+        if name == "checked_sub" and len(r["args"]) == 2 and proj and any(isinstance(e, dict) and e.get("as") == "Some" for e in proj):
+            # `a.checked_sub(b)` is Some(a - b) exactly when a >= b
+            a = kind_of(body, r["args"][0], env, depth + 1, seen)
+            b = kind_of(body, r["args"][1], env, depth + 1, seen)
+            return combine("Sub", a, b, env)
         if name in ("max",) and len(r["args"]) == 2 and any("cmp::Ord::max" in k or k.endswith("::max") for k in ks0):
             a = kind_of(body, r["args"][0], env, depth + 1, seen)
             b = kind_of(body, r["args"][1], env, depth + 1, seen)
